@@ -33,7 +33,8 @@ class FrameKind(Case):
                   functions=["location.location_impl._union_preserve_overlaps", "util.hashing._order_set",
                              "util.hashing._order_dict_of_possible_sets", "util.hashing._encode_object_for_digest",
                              "util.hashing.digest_object", "io.features.merge_qualifiers",
-                             "io.features.extract_feature_name_id"])
+                             "io.features.extract_feature_name_id", "io.parser.seq_chunk_to_parent",
+                             "io.parser.seq_to_parent"])
     # (io.features.extract_feature_types is NOT listed: its first parameter is a documented accumulator)
 
 
